@@ -6,6 +6,8 @@ from common import *
 MODELS = {
     "syncproto": [("sync/MC_SyncProto.tla", "sync/MC_SyncProto.cfg", "3 threads, 5-key diamond DAG, all schedules; invariants ProtoInv, AtMostOnce, NoClaimLeak; liveness Termination"),
                   ("sync/MC_SyncProto.tla", "sync/MC_SyncProtoPanic.cfg", "same with panics in two keys; waiters end with propagated panics, nothing leaks, everybody terminates")],
+    "syncxfer": [("sync/SyncXfer.tla", "sync/SyncXfer.cfg", "lock transfer under a most general client: 2 threads, 3 keys, 9 steps, all interleavings of claim / block / cycle / transfer (re-rooting, transfer-target unblock, edge rewrite, block on new owner) / re-entrant claim / release; ProtoInv, ClaimsConsistent"),
+                 ("sync/SyncXfer.tla", "sync/SyncXferPanic.cfg", "same with panics (whole-stack unwinding, release_panicking, propagated panics)")],
     "pagealloc": [("alloc/PageAlloc.tla", "alloc/PageAlloc.cfg", "2 handles (dropped and re-created, <=2 drops), 2 ingredients, page capacity 2, 5 allocations, all schedules; IdsDistinct, UniqueWriter, PooledNotCached, SlotsInOrder")],
     "cancel": [("cancel/Cancel.tla", "cancel/Cancel.cfg", "2 reader handles x 3 requests x 2 checks, 2 writes, local cancels; WriterExclusive, NoStaleProvisional, LocalOnlyOwn, TokenResetAtOutermost; liveness WriterEventuallyProceeds")],
 }
